@@ -1,11 +1,13 @@
 package checks
 
 import (
+	"bytes"
 	"fmt"
 	"math"
 	"reflect"
 	"testing"
 	"time"
+	"unsafe"
 
 	"github.com/philpearl/avro"
 	"pgregory.net/rapid"
@@ -335,6 +337,9 @@ type c19Col struct {
 	Shape   string  `json:"shape"` // plain ptr slice sliceptr map mapptr
 	Stored  []int64 `json:"stored"`
 	Nulls   []bool  `json:"nulls,omitempty"` // ptr shapes: element i is null
+	// Obj: a plain long spelled in object form, {"type":"long"}, as other
+	// implementations write it when they attach attributes of their own
+	Obj bool `json:"obj,omitempty"`
 }
 
 type c19MultiCase struct {
@@ -346,6 +351,14 @@ func init() {
 }
 
 var c19Shapes = []string{"plain", "ptr", "slice", "sliceptr", "map", "mapptr"}
+
+func c19BaseOf(col c19Col) ref.Schema {
+	b := c19Base(col.Logical)
+	if col.Logical == "long" && col.Obj {
+		b.ObjectForm = true
+	}
+	return b
+}
 
 func c19Base(logical string) ref.Schema {
 	switch logical {
@@ -365,7 +378,7 @@ func runC19Multi(c c19MultiCase) (bool, error) {
 	tt := reflect.TypeOf(time.Time{})
 	viaNew := 0
 	for i, col := range c.Cols {
-		base := c19Base(col.Logical)
+		base := c19BaseOf(col)
 		elem := func(j int) ref.Datum {
 			d := ref.Datum{K: base.Kind, I: col.Stored[j]}
 			if col.Shape == "ptr" || col.Shape == "sliceptr" || col.Shape == "mapptr" {
@@ -452,7 +465,7 @@ func runC19Multi(c c19MultiCase) (bool, error) {
 		return agreeTimeInt(base, want, got.Interface().(time.Time), dirRead, path)
 	}
 	for i, col := range c.Cols {
-		base := c19Base(col.Logical)
+		base := c19BaseOf(col)
 		f := v.Elem().Field(i)
 		d := datum.Fields[i]
 		path := fmt.Sprintf("c%d(%s %s)", i, col.Logical, col.Shape)
@@ -495,6 +508,57 @@ func runC19Multi(c c19MultiCase) (bool, error) {
 	if diff := back.Diff(datum, "record"); diff != "" {
 		return nt, fmt.Errorf("decoded and written again, the record differs: %s", diff)
 	}
+	// the same through a file: the schema as the library serialises it goes into the
+	// header, the record into a block; an independent reader and the library's own
+	// ReadFile must both find the stored integers under that header
+	doc, err := lib.Marshal()
+	if err != nil {
+		return nt, fmt.Errorf("Marshal: %v", err)
+	}
+	fw, err := avro.NewFileWriter(doc, avro.CompressionNull)
+	if err != nil {
+		return nt, fmt.Errorf("NewFileWriter: %v", err)
+	}
+	var file bytes.Buffer
+	if err := fw.WriteHeader(&file); err != nil {
+		return nt, fmt.Errorf("WriteHeader: %v", err)
+	}
+	if err := fw.WriteBlock(&file, 1, wb.Bytes()); err != nil {
+		return nt, fmt.Errorf("WriteBlock: %v", err)
+	}
+	hs, _, blocks, err := ref.ReadRecords(file.Bytes())
+	if err != nil {
+		return nt, fmt.Errorf("reference reader rejects the file: %v", err)
+	}
+	if d := hs.Diff(rec, ""); d != "" {
+		return nt, fmt.Errorf("the schema in the file header differs from the schema the codec was built from: %s", d)
+	}
+	if len(blocks) != 1 || len(blocks[0]) != 1 || blocks[0][0].Diff(datum, "record") != "" {
+		return nt, fmt.Errorf("an independent reader finds other data in the file than was written")
+	}
+	n := 0
+	var ferr error
+	if err := avro.ReadFile(bytes.NewReader(file.Bytes()), reflect.New(typ).Elem().Interface(), func(val unsafe.Pointer, rb *avro.ResourceBank) error {
+		n++
+		fv := reflect.NewAt(typ, val).Elem()
+		for i, col := range c.Cols {
+			if col.Shape != "plain" && col.Shape != "ptr" {
+				continue
+			}
+			if e := check(c19BaseOf(col), datum.Fields[i], fv.Field(i), fmt.Sprintf("read from the file: c%d(%s %s)", i, col.Logical, col.Shape)); e != nil && ferr == nil {
+				ferr = e
+			}
+		}
+		return nil
+	}); err != nil {
+		return nt, fmt.Errorf("ReadFile: %v", err)
+	}
+	if ferr != nil {
+		return nt, ferr
+	}
+	if n != 1 {
+		return nt, fmt.Errorf("ReadFile delivered %d records, 1 written", n)
+	}
 	return nt, nil
 }
 
@@ -503,6 +567,7 @@ func drawC19Multi(t *rapid.T) c19MultiCase {
 	n := gen.UniformRange(t, "ncols", 1, 5)
 	for i := 0; i < n; i++ {
 		col := c19Col{Logical: c19Logicals[gen.Uniform(t, "logical", 4)], Shape: c19Shapes[gen.Uniform(t, "shape", 6)]}
+		col.Obj = col.Logical == "long" && rapid.Bool().Draw(t, "objectForm")
 		m := 1
 		if col.Shape != "plain" && col.Shape != "ptr" {
 			m = gen.UniformRange(t, "nelems", 0, 6)
